@@ -46,12 +46,13 @@ func (b *bstr) UnmarshalJSON(d []byte) error {
 }
 
 type kvOp struct {
-	Op  string    `json:"op"`
-	K   bstr      `json:"k,omitempty"`
-	V   bstr      `json:"v,omitempty"`
-	It  []kvOp    `json:"it,omitempty"`
-	Tx  []kvOp    `json:"tx,omitempty"`
-	KVs [][2]bstr `json:"kvs,omitempty"`
+	Op   string    `json:"op"`
+	K    bstr      `json:"k,omitempty"`
+	V    bstr      `json:"v,omitempty"`
+	It   []kvOp    `json:"it,omitempty"`
+	Tx   []kvOp    `json:"tx,omitempty"`
+	KVs  [][2]bstr `json:"kvs,omitempty"`
+	Fail bool      `json:"fail,omitempty"` // update / bulk: the callback does its work and then returns an error
 }
 
 type c10Input struct {
@@ -121,11 +122,17 @@ func opCoq(o kvOp) string {
 		for i, t := range o.Tx {
 			out[i] = txCoq(t)
 		}
+		if o.Fail {
+			return "(OUpdateFail " + coq.List(out) + ")"
+		}
 		return "(OUpdate " + coq.List(out) + ")"
 	case "bulk":
 		out := make([]string, len(o.KVs))
 		for i, kv := range o.KVs {
 			out[i] = coq.Pair(bcoq(kv[0]), bcoq(kv[1]))
+		}
+		if o.Fail {
+			return "(OBulkFail " + coq.List(out) + ")"
 		}
 		return "(OBulk " + coq.List(out) + ")"
 	}
@@ -134,13 +141,13 @@ func opCoq(o kvOp) string {
 
 // observed results: mirror of Coq's res
 type kvRes struct {
-	T    string   `json:"t"` // val, bool, unit, pos, list, panic
-	Some bool     `json:"some,omitempty"`
-	K    bstr     `json:"k,omitempty"`
-	V    bstr     `json:"v,omitempty"`
-	B    bool     `json:"b,omitempty"`
-	L    []kvRes  `json:"l,omitempty"`
-	Msg  string   `json:"msg,omitempty"`
+	T    string  `json:"t"` // val, bool, unit, pos, list, panic
+	Some bool    `json:"some,omitempty"`
+	K    bstr    `json:"k,omitempty"`
+	V    bstr    `json:"v,omitempty"`
+	B    bool    `json:"b,omitempty"`
+	L    []kvRes `json:"l,omitempty"`
+	Msg  string  `json:"msg,omitempty"`
 }
 
 func resCoq(r kvRes) string {
@@ -154,6 +161,8 @@ func resCoq(r kvRes) string {
 		return "(RBool " + coq.Bool(r.B) + ")"
 	case "unit":
 		return "RUnit"
+	case "err":
+		return "RErr"
 	case "pos":
 		if r.Some {
 			return "(RPos (Some (" + bcoq(r.K) + ", " + bcoq(r.V) + ")))"
@@ -181,10 +190,19 @@ func guard(f func() kvRes) (r kvRes) {
 
 func runIt(it kvi.KVIterator, ops []kvOp) kvRes {
 	out := []kvRes{}
+	// what Key() and Value() hand out is kept by callers across later cursor calls (kvgraph collects keys to delete
+	// while it scans): the slices are retained as they are and compared with their contents at the time when the script ends
+	type kept struct {
+		raw  []byte
+		copy string
+	}
+	retained := []kept{}
 	pos := func() kvRes {
 		if it.Valid() {
 			v, _ := it.Value()
-			return kvRes{T: "pos", Some: true, K: bstr(it.Key()), V: bstr(v)}
+			k := it.Key()
+			retained = append(retained, kept{k, string(k)}, kept{v, string(v)})
+			return kvRes{T: "pos", Some: true, K: bstr(k), V: bstr(v)}
 		}
 		return kvRes{T: "pos"}
 	}
@@ -213,8 +231,17 @@ func runIt(it kvi.KVIterator, ops []kvOp) kvRes {
 			return kvRes{T: "panic", Msg: "bad op"}
 		}))
 	}
+	// (the retained-slice check runs here, before the result is built)
+	for _, r := range retained {
+		if string(r.raw) != r.copy {
+			out = append(out, kvRes{T: "panic", Msg: fmt.Sprintf("a slice handed out by the cursor changed afterwards: %q became %q", r.copy, string(r.raw))})
+			break
+		}
+	}
 	return kvRes{T: "list", L: out}
 }
+
+var errCallback = fmt.Errorf("the callback failed")
 
 func runKV(kv kvi.KVInterface, ops []kvOp) []kvRes {
 	out := []kvRes{}
@@ -273,21 +300,34 @@ func runKV(kv kvi.KVInterface, ops []kvOp) []kvRes {
 							return kvRes{T: "panic", Msg: "bad op"}
 						}))
 					}
+					if o.Fail {
+						return errCallback
+					}
 					return nil
 				})
+				if o.Fail && err == errCallback {
+					return kvRes{T: "err"}
+				}
 				if err != nil {
 					return kvRes{T: "panic", Msg: "error: " + err.Error()}
 				}
 				return kvRes{T: "list", L: rs}
 			case "bulk":
-				return unitOrErr(kv.BulkWrite(func(bl kvi.KVBulkWrite) error {
+				err := kv.BulkWrite(func(bl kvi.KVBulkWrite) error {
 					for _, p := range o.KVs {
 						if err := bl.Set([]byte(p[0]), []byte(p[1])); err != nil {
 							return err
 						}
 					}
+					if o.Fail {
+						return errCallback
+					}
 					return nil
-				}))
+				})
+				if o.Fail && err == errCallback {
+					return kvRes{T: "err"}
+				}
+				return unitOrErr(err)
 			}
 			return kvRes{T: "panic", Msg: "bad op"}
 		}))
@@ -375,13 +415,13 @@ func c10Script(rng *rand.Rand, maxLen int) []kvOp {
 					tx = append(tx, kvOp{Op: "view", It: c10ItOps(rng)})
 				}
 			}
-			ops = append(ops, kvOp{Op: "update", Tx: tx})
+			ops = append(ops, kvOp{Op: "update", Tx: tx, Fail: rng.Intn(4) == 0})
 		default:
 			kvs := [][2]bstr{}
 			for j := 0; j < 1+rng.Intn(4); j++ {
 				kvs = append(kvs, [2]bstr{c10Key(rng), c10Val(rng)})
 			}
-			ops = append(ops, kvOp{Op: "bulk", KVs: kvs})
+			ops = append(ops, kvOp{Op: "bulk", KVs: kvs, Fail: rng.Intn(4) == 0})
 		}
 	}
 	return ops
@@ -398,6 +438,9 @@ func c10Classes(in c10Input) []string {
 	}
 	for _, o := range in.Ops {
 		set["op."+o.Op] = true
+		if o.Fail {
+			set["op."+o.Op+".failing-callback"] = true
+		}
 		if o.Op == "view" {
 			walkIt("", o.It)
 		}
@@ -418,8 +461,9 @@ func c10Classes(in c10Input) []string {
 func runC10(ctx *Ctx) error {
 	ctx.EvalMod = "Eval_C10"
 	ctx.CaseTy = "c10_case"
+	ctx.HasKF = true
 	ctx.Shard = 120
-	ctx.Rule = "scripts over the kvi interface (Get/HasKey/Set/Delete/DeletePrefix/View with cursor scripts/Update/BulkWrite), keys over {a,b,0x00,0xff} length 1-3, values {'', '1', 'xy'}, each script on a fresh store of each of the four drivers; non-trivial = script with >= 3 operations including a read; distinct by (driver, script)"
+	ctx.Rule = "scripts over the kvi interface (Get/HasKey/Set/Delete/DeletePrefix/View with cursor scripts/Update/BulkWrite, a quarter of the latter two with a callback that fails after its writes), keys over {a,b,0x00,0xff} length 1-3, values {'', '1', 'xy'}, each script on a fresh store of each of the four drivers; non-trivial = script with >= 3 operations including a read; distinct by (driver, script)"
 	var inputs []c10Input
 	if ctx.Replay != nil {
 		var in c10Input
@@ -441,6 +485,16 @@ func runC10(ctx *Ctx) error {
 			for _, d := range kvDrivers {
 				inputs = append(inputs, c10Input{Driver: d, Ops: ops})
 			}
+		}
+		// a failing callback after writes and deletes, then reads of everything it touched
+		for _, d := range kvDrivers {
+			inputs = append(inputs,
+				c10Input{Driver: d, Ops: append(append([]kvOp{}, base...),
+					kvOp{Op: "bulk", KVs: [][2]bstr{{"a", "xy"}, {"c", "1"}}, Fail: true},
+					kvOp{Op: "get", K: "a"}, kvOp{Op: "has", K: "c"}, kvOp{Op: "view", It: []kvOp{{Op: "seek", K: "a"}, {Op: "next"}, {Op: "next"}, {Op: "next"}, {Op: "next"}}})},
+				c10Input{Driver: d, Ops: append(append([]kvOp{}, base...),
+					kvOp{Op: "update", Tx: []kvOp{{Op: "set", K: "a", V: "xy"}, {Op: "del", K: "ab"}, {Op: "set", K: "c", V: "1"}, {Op: "get", K: "a"}}, Fail: true},
+					kvOp{Op: "get", K: "a"}, kvOp{Op: "has", K: "ab"}, kvOp{Op: "has", K: "c"}, kvOp{Op: "view", It: []kvOp{{Op: "seek", K: "a"}, {Op: "next"}, {Op: "next"}, {Op: "next"}, {Op: "next"}}})})
 		}
 		for i := 0; i < n; i++ {
 			ops := c10Script(ctx.Rng, 10)
